@@ -134,7 +134,7 @@ fn block_starts(world: &mut World, genesis: &StartState) -> Vec<StartState> {
 }
 
 pub fn run_c05(ctx: &Ctx) -> i32 {
-    let homes = |k: Kind| matches!(k, Kind::EntryCtx | Kind::EntryPresence | Kind::Panic);
+    let homes = |k: Kind| matches!(k, Kind::EntryCtx | Kind::EntryBalance | Kind::EntryPresence | Kind::Panic);
     let sampler = Sampler::new(4, ctx.seed);
     let mut st = TreeStats::default();
     let starts = build_starts(ctx, &homes, &mut st);
@@ -244,7 +244,7 @@ fn app_query_purity(ctx: &Ctx, world: &mut World, s: &StartState) -> u64 {
 }
 
 pub fn run_c10(ctx: &Ctx) -> i32 {
-    let homes = |k: Kind| matches!(k, Kind::EntryQuery | Kind::EntryStore | Kind::Panic);
+    let homes = |k: Kind| matches!(k, Kind::EntryQuery | Kind::EntryStore | Kind::EntryBalance | Kind::Panic);
     let sampler = Sampler::new(4, ctx.seed);
     let mut st = TreeStats::default();
     let starts = build_starts(ctx, &homes, &mut st);
